@@ -250,6 +250,35 @@ func registerStdIntrinsics(p *Program) {
 		return e.deepEqual(a.v, b.v)
 	}
 
+	// ---- hash/crc32: the arch-specific kernels are assembly; redirect to the package's own
+	// portable simpleUpdate (requires hash/crc32 loaded with bodies).
+	crcSimple := func(e *Exec, fr *frame, crc Value, tab Value, p Value) Value {
+		sp := e.prog.pkgs["hash/crc32"]
+		if sp == nil {
+			e.unsupported("hash/crc32 must be listed in check.json std")
+		}
+		r := e.callFunction(fr, sp.Func("simpleUpdate"), []Value{crc, tab, p}, nil)
+		e.curFrame = fr
+		return r
+	}
+	ieeeTab := func(e *Exec) Value {
+		sp := e.prog.pkgs["hash/crc32"]
+		if sp == nil {
+			e.unsupported("hash/crc32 must be listed in check.json std")
+		}
+		g := sp.Var("IEEETable")
+		return e.load(Pointer{loc: e.globalLoc(g)})
+	}
+	I["hash/crc32.ChecksumIEEE"] = func(e *Exec, fr *frame, args []Value) Value {
+		return crcSimple(e, fr, e.ts.BV(32, 0), ieeeTab(e), args[0])
+	}
+	I["hash/crc32.Checksum"] = func(e *Exec, fr *frame, args []Value) Value {
+		return crcSimple(e, fr, e.ts.BV(32, 0), args[1], args[0])
+	}
+	I["hash/crc32.Update"] = func(e *Exec, fr *frame, args []Value) Value {
+		return crcSimple(e, fr, args[0], args[1], args[2])
+	}
+
 	// ---- strconv (decimal formatting of concrete numbers only)
 	I["strconv.Itoa"] = func(e *Exec, fr *frame, args []Value) Value {
 		t := args[0].(*Term)
